@@ -61,6 +61,7 @@ var cycle = []combo{
 	{"destroy", ""}, {"destroy", ""}, {"destroy", "afterDrain"},
 	{"stop", ""}, {"stop", ""}, {"stop", "parked"},
 	{"stopflush", "beforeClose"},
+	{"autodestroy", "inflight"}, {"autodestroy", "inflight"}, {"idle", "inflight"},
 }
 
 func genCase(r *rand.Rand, idx int) caseSpec {
@@ -176,6 +177,24 @@ func genCase(r *rand.Rand, idx int) caseSpec {
 			cs.Writers = append(cs.Writers, randWriter(4))
 		}
 		cs.Reopen = "restart"
+	}
+	if cs.Forced == "inflight" {
+		// exactly one request in flight, on a key the trigger does not address
+		w := cs.Writers[0]
+		if cs.Scen == "autodestroy" {
+			w.Key = keyFor(w.Kind, 5+r.IntN(3))
+		}
+		cs.Writers = []opSpec{w}
+		cs.TickK = 0
+	}
+	// a random prefix of vigil-taking requests on the instance the scenario then races against
+	if n := r.IntN(6); cs.Forced == "inflight" || n >= 2 {
+		if cs.Forced == "inflight" {
+			n = 2 + r.IntN(5)
+		}
+		for i := 0; i < n; i++ {
+			cs.Prefix = append(cs.Prefix, prefixVariants[r.IntN(len(prefixVariants))])
+		}
 	}
 	f := cs.Forced
 	if f == "" {
@@ -360,6 +379,14 @@ func account(c *rig.Check, cs caseSpec, cr caseResult) {
 			}
 		}
 	}
+	c.Count("vigil_balance_checks(counter_read_at_quiescence)", int64(cr.BalanceChecks))
+	if cr.BalanceNoAccess > 0 {
+		c.Count("vigil_balance_unchecked(accessor_absent)", int64(cr.BalanceNoAccess))
+	}
+	for _, l := range cr.PrefixLog {
+		c.Count("prefix_requests", 1)
+		c.Seen("prefix_requests_and_replies", l)
+	}
 	if cs.Scen == "stopflush" && cr.StopInFlush {
 		c.Count("stops_issued_inside_a_running_eviction_flush", 1)
 	}
@@ -427,7 +454,7 @@ func runAndAccount(t *testing.T, c *rig.Check, cs caseSpec) {
 func TestCheck(t *testing.T) {
 	c := rig.NewCheck(t, "C16", "exploration")
 	defer c.Finish()
-	c.Rule = "a case = one schedule in a synctest bubble on a persistent swamp (closeAfterIdle 1-3 s, write interval 1 s or immediate): setup writes, then writers with unique values (Set / IncrementInt64 / Uint32SlicePush / PatchTreasures) started at the same virtual instant as the evicting close-listener tick (also one tick earlier/later), a last-record Delete/ShiftByKeys/ShiftExpired (auto-destroy), an explicit Destroy, or the graceful stop (zeus.StopHydra called directly; the data root is copied at the very moment it returns and that copy is what is re-opened; 'stopflush' = 1000-2400 acknowledged records that no write tick has flushed (write interval 30 s > idle), the stop issued from closeListener.beforeClose as soon as the eviction's own flush has produced the storage file, so that Close() called by the shutdown finds the swamp already closing) — natural (truly parallel goroutines) or forced (started from a verifhook handler that then sleeps 1 ms virtual: closeListener.afterRead/beforeClose, autodestroy.beforeDestroy, destroy.afterDrain, and 'parked' = first racer held at hydra.summon.beforeRelease between summon and BeginVigil while the close/destroy/stop runs); plus sequential Delete/write sequences on one key inside one write interval (marker family); then eviction or engine restart on the same root and a Get of every key; oracle = per-key conservation over acknowledged effects with a logical clock; non-trivial = at least one racing (or sequence) request was acknowledged and the re-open was confirmed (stopflush: the stop was issued while the eviction flush was running); distinct = distinct case JSON"
+	c.Rule = "a case = one schedule in a synctest bubble on a persistent swamp (closeAfterIdle 1-3 s, write interval 1 s or immediate): setup writes, then writers with unique values (Set / IncrementInt64 / Uint32SlicePush / PatchTreasures) started at the same virtual instant as the evicting close-listener tick (also one tick earlier/later), a last-record Delete/ShiftByKeys/ShiftExpired (auto-destroy), an explicit Destroy, or the graceful stop (zeus.StopHydra called directly; the data root is copied at the very moment it returns and that copy is what is re-opened; 'stopflush' = 1000-2400 acknowledged records that no write tick has flushed (write interval 30 s > idle), the stop issued from closeListener.beforeClose as soon as the eviction's own flush has produced the storage file, so that Close() called by the shutdown finds the swamp already closing) — natural (truly parallel goroutines) or forced (started from a verifhook handler that then sleeps 1 ms virtual: closeListener.afterRead/beforeClose, autodestroy.beforeDestroy, destroy.afterDrain, and 'parked' = first racer held at hydra.summon.beforeRelease between summon and BeginVigil while the close/destroy/stop runs, 'inflight' = exactly ONE request in flight, held at swamp.save.underGuard after its BeginVigil and before its insert, while the last-record removal and its whole auto-destroy run, or for longer than the idle time); before the scenario a random prefix (0-6) of vigil-taking gateway requests that store nothing runs on the same live instance (all read / stream RPCs incl. GetByIndexStream and GetByIndexStreamFromMany with request-level and per-query MaxResults reached or not, Count / existence / slice probes, engine-side failing requests, a request that panics in the handler), and after every prefix request and after the scenario — no request in flight — the vigil counter of the live instance is read through the verif-tagged accessor (*swamp).VerifVigilCount and must be exactly 0 (unchecked, and counted as such, when the tree lacks the accessor); plus sequential Delete/write sequences on one key inside one write interval (marker family); then eviction or engine restart on the same root and a Get of every key; oracle = per-key conservation over acknowledged effects with a logical clock; non-trivial = at least one racing (or sequence) request was acknowledged and the re-open was confirmed (stopflush: the stop was issued while the eviction flush was running); distinct = distinct case JSON"
 	c.Assumptions = []string{
 		"acknowledged = Set status NEW/UPDATED, Increment IsIncremented, PatchResult PATCHED/CREATED, Uint32SlicePush nil error, Delete status DELETED, a record returned by ShiftByKeys/ShiftExpiredTreasures, Destroy nil error; any gRPC error, INTERNAL_ERROR or missing reply = not acknowledged (the request may or may not have taken effect, both accepted)",
 		"requests that overlap on the logical clock may take effect in either order; an explicit Destroy counts as an acknowledged removal of every key, so writes that precede or overlap it may be gone; the automatic destroy after a last-record removal is not a client operation",
